@@ -69,10 +69,10 @@ def run_property(pid: str, tier: str = "quick", seed: int = 0, write_evidence: b
     if controls:
         run_controls(run)
     REGISTRY[pid](run, prog)
-    if tier == "thorough":
-        from geolint import selftest
+    from geolint import selftest
 
-        selftest.run(run, prog, seed)
+    # quick: the variants marked quick act as positive controls on the real tree; thorough: every variant of the property
+    selftest.run(run, prog, seed, quick_only=(tier != "thorough"))
     if replay:
         with open(replay, encoding="utf-8") as fh:
             r = json.load(fh)
@@ -207,3 +207,133 @@ def check_c09(run: Run, prog: Program) -> None:
     fn = prog.func("dist")
     n = dispatch.analyse(run, prog, fn, C09_DOCUMENTED)
     run.floor("ordered kind pairs evaluated", n, 100)
+
+
+# ================================================================================================ C18
+@prop("C18")
+def check_c18(run: Run, prog: Program) -> None:
+    from geolint import intersect
+
+    run.title = "Polytope intersections return exactly the common points"
+    run.clause = (
+        "decides the plumbing of the three intersect implementations on all paths including both exception handlers: (F1) every "
+        "bounded operand's membership test is part of the filter, (F2) the dependent_values mask is applied to every collection "
+        "operand and only to collections, (F3) points gathered from several facets pass through distinct, (F4) suppressed dependence "
+        "checks are compensated by ~is_zero(). NOT decided: geometric correctness of the meets and of contains."
+    )
+    n = intersect.rule_F(run, prog)
+    run.floor("intersect implementations", n, 3)
+    run.floor("filter obligations", sum(1 for o in run.obligations if o.rule == "E10.F1"), 4)
+    run.stats["intersect_methods"] = n
+
+
+# ================================================================================================ C02
+_CG_CACHE: dict[int, object] = {}
+
+
+def get_cg(prog: Program):
+    from geolint import callgraph
+
+    if id(prog) not in _CG_CACHE:
+        _CG_CACHE[id(prog)] = callgraph.build(prog)
+    return _CG_CACHE[id(prog)]
+
+
+def _error_rules(run: Run, prog: Program, exc: str, entries: list[str], payload: bool = False, quad: list[str] | None = None):
+    from geolint import errors
+
+    cg = get_cg(prog)
+    sites = errors.rule_raised_and_reachable(run, prog, cg, exc, entries)
+    if sites:
+        errors.rule_no_interception(run, prog, cg, exc, entries, sites)
+        errors.rule_guard_first(run, prog, sites, exc)
+        if payload:
+            errors.rule_payload(run, prog, sites)
+        if quad:
+            errors.rule_predicate_args(run, prog, sites, quad)
+    errors.consumers(run, prog, cg, exc)
+    return sites
+
+
+@prop("C02")
+def check_c02(run: Run, prog: Program) -> None:
+    run.title = "Degenerate join/meet inputs raise the documented error, never a wrong answer"
+    run.clause = (
+        "decides the structural half: LinearDependenceError and NotCoplanar are raised somewhere reachable from join, meet, "
+        "Point.join, Subspace.meet/join, Line(p, q) and Plane(...); the zero test reads the contraction before it is normalised or "
+        "returned (validate before use); in the collection case the mask passed is the tested array; nothing inside the entry points' "
+        "own call tree intercepts the error. NOT decided: 'exactly when' - the tolerance arithmetic of is_zero and the condition itself."
+    )
+    entries = ["join", "meet", "PointTensor.join", "SubspaceTensor.meet", "SubspaceTensor.join", "LineTensor.__init__", "PlaneTensor.__init__"]
+    s1 = _error_rules(run, prog, "LinearDependenceError", entries, payload=True)
+    s2 = _error_rules(run, prog, "NotCoplanar", ["join", "meet", "SubspaceTensor.meet", "SubspaceTensor.join"])
+    cg = get_cg(prog)
+    run.stats["callgraph"] = cg.stats
+    run.stats["raise_sites"] = len(s1) + len(s2)
+    run.floor("raise sites of the documented errors", len(s1) + len(s2), 2)
+
+
+# ================================================================================================ C11
+@prop("C11")
+def check_c11(run: Run, prog: Program) -> None:
+    run.title = "Cross ratio has its closed-form value, its symmetries and projective invariance"
+    run.clause = (
+        "decides (i) the error clause: NotCollinear / NotConcurrent are raised, reachable from crossratio, guarded by a predicate over "
+        "all four arguments and not intercepted; (ii) balance: the returned quotient has homogeneity degree 0 in each of a, b, c, d "
+        "(and from_point) on the decided paths - a necessary condition for being a projective invariant at all. NOT decided: which of "
+        "the 24 permutations is computed, the 0/0 positions, harmonic_set."
+    )
+    fn = prog.func("crossratio")
+    quad = [p.arg for p in fn.params()[:4]]
+    s1 = _error_rules(run, prog, "NotCollinear", ["crossratio"], quad=quad)
+    s2 = _error_rules(run, prog, "NotConcurrent", ["crossratio"], quad=quad)
+    run.floor("raise sites of the documented errors", len(s1) + len(s2), 2)
+    try:
+        from geolint import homog
+    except ImportError:
+        homog = None
+    if homog is not None:
+        homog.check_crossratio(run, prog)
+
+
+# ================================================================================================ C07
+@prop("C07")
+def check_c07(run: Run, prog: Program) -> None:
+    from geolint import variance
+
+    run.title = "Transformations preserve incidence and commute with join and meet"
+    run.clause = (
+        "decides the variance clauses only: (V2) the constructors assign the index types C07 names (points covariant, hyperplanes and "
+        "quadrics contravariant, dual quadrics covariant, transformations (1,1)) for every concrete class, by constant propagation "
+        "along the MRO; (V3) the generic action contracts covariant indices with the matrix and contravariant indices with its inverse, "
+        "tensor_shape[0] resp. [1] times. NOT decided: commutation with join/meet, the basis-point transform of subspaces, cross-ratio "
+        "invariance (numeric)."
+    )
+    n2 = variance.rule_V2(run, prog)
+    n3 = variance.rule_V3(run, prog)
+    variance.rule_kind_guards(run, prog)
+    run.floor("constructor chains analysed", n2, 15)
+    run.floor("diagram edges in __apply__", n3, 2)
+    run.stats.update({"constructor_chains": n2, "apply_edges": n3})
+
+
+# ================================================================================================ C08
+@prop("C08")
+def check_c08(run: Run, prog: Program) -> None:
+    from geolint import variance
+
+    run.title = "Transformation constructors realise their Euclidean / projective definition"
+    run.clause = (
+        "decides ONE clause: wherever a map is conjugated by a translation (reflection about a mirror that does not pass through the "
+        "origin, and the two other users of the idiom), the outer factors are a translation and its inverse. Everything numeric "
+        "(affine embedding, Rodrigues formula, frames, conic map) is NOT decided; this single clause is what static analysis offers here."
+    )
+    prog.func("reflection")
+    prog.func("translation")
+    n = variance.rule_conjugation(run, prog)
+    run.stats["conjugation_chains"] = n
+    refl = prog.func("reflection")
+    in_refl = [o for o in run.obligations if o.rule == "E8" and o.construct == refl.short]
+    if not in_refl:
+        run.add("E8", refl.short, "conjugation", UNDECIDED,
+                "reflection no longer uses the translation-conjugation idiom; the clause is not judged", refl.loc)
